@@ -1120,3 +1120,14 @@ func varSyncOnly(a *ssa.Alloc, depth int) bool {
 	}
 	return true
 }
+
+// OpOfFunc reports whether fn itself is a lock operation (sync.Mutex method
+// or a verified wrapper) and which.
+func (lt *LockTable) OpOfFunc(fn *ssa.Function) (string, bool) {
+	obj := FuncObjOf(fn)
+	if obj == nil {
+		return "", false
+	}
+	k, ok := lt.ops[obj.Origin()]
+	return k, ok && k != ""
+}
